@@ -38,6 +38,8 @@ var (
 	na, nb, nc, nz = model.N("/u", "a"), model.N("/u", "b"), model.N("/u", "c"), model.N("/u", "z")
 	zonePlus2      = time.FixedZone("plus2", 2*3600)
 	opT1           = model.OP(model.PT("p", model.T1))
+	opR0           = model.OP(model.PT("r", model.T0))
+	opP2           = model.OP(model.PT("p", model.T2))
 )
 
 // universe: two predicate identifiers, anchors T0 < T1 < T2, one immutable
@@ -46,14 +48,19 @@ var (
 // object with a later anchor.
 func universe(n int) []*triple.Triple {
 	u := []*triple.Triple{
-		model.T(na, model.PI("p"), model.ON(nb)),                                // 0
-		model.T(na, model.PT("p", model.T0), model.ON(nb)),                      // 1
-		model.T(na, model.PT("p", model.T1), model.ON(nb)),                      // 2
-		model.T(na, model.PT("p", model.T1), model.ON(nc)),                      // 3 tie with 2
-		model.T(na, model.PT("q", model.T2), opT1),                              // 4 temporal predicate as object
-		model.T(na, model.PI("q"), model.ON(nb)),                                // 5
-		model.T(nc, model.PT("q", model.T2), model.OP(model.PT("p", model.T2))), // 6
-		model.T(nc, model.PT("p", model.T2), model.ON(nb)),                      // 7
+		model.T(na, model.PI("p"), model.ON(nb)),           // 0
+		model.T(na, model.PT("p", model.T0), model.ON(nb)), // 1
+		model.T(na, model.PT("p", model.T1), model.ON(nb)), // 2
+		model.T(na, model.PT("p", model.T1), model.ON(nc)), // 3 tie with 2
+		model.T(na, model.PT("q", model.T2), opT1),         // 4 temporal predicate as object
+		// 5: ANOTHER object predicate id under the SAME triple predicate: "latest" on the object
+		// field groups by the object's predicate id, not by the triple's
+		model.T(na, model.PT("q", model.T2), opR0),
+		model.T(na, model.PI("q"), model.ON(nb)), // 6
+		// 7: the SAME object predicate id as 4 under ANOTHER triple predicate id, later anchor
+		model.T(na, model.PT("p", model.T2), opP2),
+		model.T(nc, model.PT("q", model.T2), opP2),         // 8
+		model.T(nc, model.PT("p", model.T2), model.ON(nb)), // 9
 	}
 	return u[:n]
 }
@@ -66,7 +73,7 @@ var (
 		model.PT("p", model.T2),
 		model.PT("q", model.T2), model.PT("q", model.T2.In(zonePlus2)), model.PI("q"),
 	}
-	argO = []*triple.Object{model.ON(nb), model.ON(nc), opT1, model.ON(nz)}
+	argO = []*triple.Object{model.ON(nb), model.ON(nc), opT1, model.ON(nz), opR0, opP2}
 )
 
 type qref struct {
@@ -401,7 +408,7 @@ func main() {
 	r.Assume("LatestAnchor is read as the latest filter on the predicate field, applied after the window (docs/support_new_filter_function.md order)")
 	r.Assume("one memory graph per (state, history) serves all reads of that state: the driver's reads do not write (checked indirectly: the unpaged call is repeated in every cell)")
 
-	n := r.Pick(6, 8)
+	n := r.Pick(8, 10)
 	u := universe(n)
 	qs := grid(r.Thorough())
 	ws, fs, ofs, pages := windows(), filters(), openFilters(), allPages()
